@@ -669,6 +669,10 @@ class HttpStreamSession:
                 try:
                     batch, custom_metadata = reader.read_next_batch_with_custom_metadata()
                 except StopIteration:
+                    # No continuation token: the server has finished the stream
+                    # and holds nothing a later cancel() could refer to.
+                    self._finished = True
+                    self._state_bytes = None
                     break
 
                 # Check for continuation token (zero-row batch with STATE_KEY)
@@ -678,6 +682,10 @@ class HttpStreamSession:
                         if not isinstance(token, bytes):
                             raise TypeError(f"Expected bytes for state token, got {type(token).__name__}")
                         _drain_stream(reader)
+                        # Keep the session's cursor on the turn being consumed,
+                        # so that cancel() names this turn to the server and
+                        # not the one the init response ended with.
+                        self._state_bytes = token
                         reader = self._send_continuation(token)
                         continue
 
@@ -696,6 +704,10 @@ class HttpStreamSession:
         except RpcError:
             if reader is not None:
                 _drain_stream(reader)
+            # The stream ended with an error (or was cancelled): there is no
+            # live server-side position left to continue from or to cancel.
+            self._finished = True
+            self._state_bytes = None
             raise
 
     def next_with_token(self) -> tuple[AnnotatedBatch | None, bytes | None]:
